@@ -857,4 +857,109 @@ def build(active_known=frozenset()):
     pack.lemma("seq_update: position i holds the new value", lambda: (inb, seq_update(S_, i_, v_)[i_] == v_))
     pack.lemma("seq_update: every position before i is unchanged", lambda: (inb + [j_ >= 0, j_ < i_], seq_update(S_, i_, v_)[j_] == S_[j_]))
 
+    # a refuted obligation is followed by a search for a concrete failing input on the real classes (small universe,
+    # plain Python models); it only decides whether the VIOLATION line carries a reproduced input
+    for c in pack.contracts:
+        if c.replay_ is None:
+            c.replay(lambda m, ctx, ob: C04_REPLAY)
+            c.replay_without_model = True
     return pack
+
+
+C04_REPLAY = r'''
+import itertools
+from basilisp.lang import vector as vec, map as lmap, set as lset, list as llist, queue as lqueue, keyword as kw, runtime
+A, B, Z = (kw.keyword(n) for n in "abz")
+META, META2 = lmap.map({kw.keyword("m"): 1}), lmap.map({kw.keyword("m"): 2})
+bad = []
+def chk(desc, got, want):
+    if got != want:
+        bad.append("%s => %r, the model says %r" % (desc, got, want))
+def keyseqs(n):
+    return [ks for r in range(n + 1) for ks in itertools.product((A, B, Z), repeat=r)]
+# ---- maps and transient maps
+base = {A: 1, B: 2}
+for ks in keyseqs(3):
+    m = lmap.map(base, meta=META)
+    want = {k: v for k, v in base.items() if k not in ks}
+    chk("(dissoc m %s)" % (ks,), dict(m.dissoc(*ks)), want)
+    chk("(persistent! (dissoc! (transient m) %s))" % (ks,), dict(m.to_transient().dissoc_transient(*ks).to_persistent()), want)
+    chk("source map after dissoc %s" % (ks,), dict(m), base)
+for ks in keyseqs(2):
+    m = lmap.map(base, meta=META)
+    kvs = [x for i, k in enumerate(ks) for x in (k, 10 + i)]
+    want = dict(base); want.update({k: 10 + i for i, k in enumerate(ks)})
+    chk("(assoc m %s)" % (kvs,), dict(m.assoc(*kvs)), want)
+    chk("(persistent! (assoc! (transient m) %s))" % (kvs,), dict(m.to_transient().assoc_transient(*kvs).to_persistent()), want)
+    chk("(conj m entries %s)" % (kvs,), dict(m.cons(*[vec.MapEntry.of(k, 10 + i) for i, k in enumerate(ks)])), want)
+    chk("(conj m vectors %s)" % (kvs,), dict(m.cons(*[vec.v(k, 10 + i) for i, k in enumerate(ks)])), want)
+    chk("(persistent! (conj! (transient m) %s))" % (kvs,), dict(m.to_transient().cons_transient(*[vec.v(k, 10 + i) for i, k in enumerate(ks)]).to_persistent()), want)
+    chk("source map after assoc %s" % (kvs,), dict(m), base)
+    for k in (A, B, Z):
+        chk("(get m %s)" % k, m.val_at(k, "dflt"), base.get(k, "dflt"))
+        chk("(contains? m %s)" % k, m.contains(k), k in base)
+        e = m.entry(k)
+        chk("(find m %s)" % k, None if e is None else (e.key, e.value), (k, base[k]) if k in base else None)
+        t = m.to_transient()
+        chk("(get tm %s)" % k, t.val_at(k, "dflt"), base.get(k, "dflt"))
+        chk("(contains? tm %s)" % k, t.contains_transient(k), k in base)
+m = lmap.map(base, meta=META)
+chk("(meta (with-meta m x))", m.with_meta(META2).meta, META2); chk("(meta m) after with-meta", m.meta, META); chk("(= m (with-meta m x))", m.with_meta(META2) == m, True)
+chk("(hash (with-meta m x))", hash(m.with_meta(META2)) == hash(m), True); chk("(empty m)", dict(m.empty()), {}); chk("(count m)", len(m), 2)
+# ---- sets and transient sets
+sbase = {A, B}
+for ks in keyseqs(3):
+    s = lset.set(sbase, meta=META)
+    chk("(conj s %s)" % (ks,), set(s.cons(*ks)), sbase | set(ks)); chk("(disj s %s)" % (ks,), set(s.disj(*ks)), sbase - set(ks))
+    chk("(persistent! (conj! (transient s) %s))" % (ks,), set(s.to_transient().cons_transient(*ks).to_persistent()), sbase | set(ks))
+    chk("(persistent! (disj! (transient s) %s))" % (ks,), set(s.to_transient().disj_transient(*ks).to_persistent()), sbase - set(ks))
+    chk("source set after %s" % (ks,), set(s), sbase)
+s = lset.set(sbase, meta=META)
+for k in (A, B, Z):
+    chk("(contains? s %s)" % k, k in s, k in sbase); chk("(s %s)" % k, s(k, "dflt"), k if k in sbase else "dflt")
+chk("(meta (with-meta s x))", s.with_meta(META2).meta, META2); chk("(meta s) after with-meta", s.meta, META); chk("(= s (with-meta s x))", s.with_meta(META2) == s, True)
+chk("(empty s)", set(s.empty()), set()); chk("(count s)", len(s), 2)
+# ---- vectors and transient vectors
+for n in range(4):
+    items = list(range(n))
+    v = vec.vector(items, meta=META)
+    for xs in ([], [7], [7, 8]):
+        chk("(conj %r %r)" % (items, xs), list(v.cons(*xs)), items + xs)
+        chk("(persistent! (conj! (transient %r) %r))" % (items, xs), list(v.to_transient().cons_transient(*xs).to_persistent()), items + xs)
+    for i in range(n + 2):
+        want = items[:i] + [9] + items[i + 1:] if i <= n else IndexError
+        for desc, f in (("(assoc %r %d 9)" % (items, i), lambda: list(v.assoc(i, 9))), ("(persistent! (assoc! (transient %r) %d 9))" % (items, i), lambda: list(v.to_transient().assoc_transient(i, 9).to_persistent())),
+                        ("(runtime/assoc %r %d 9)" % (items, i), lambda: list(runtime.assoc(v, i, 9)))):
+            try:
+                got = f()
+            except IndexError:
+                got = IndexError
+            chk(desc, got, want)
+        chk("(get %r %d)" % (items, i), v.val_at(i, "dflt"), items[i] if i < n else "dflt"); chk("(nth %r %d nf)" % (items, i), v.nth(i, "nf"), items[i] if i < n else "nf")
+        chk("(contains? %r %d)" % (items, i), v.contains(i), i < n); chk("(runtime/get %r %d)" % (items, i), runtime.get(v, i, "dflt"), items[i] if i < n else "dflt")
+        e = v.entry(i)
+        chk("(find %r %d)" % (items, i), None if e is None else (e.key, e.value), (i, items[i]) if i < n else None)
+        t = v.to_transient()
+        chk("(get tv %d)" % i, t.val_at(i, "dflt"), items[i] if i < n else "dflt"); chk("(contains? tv %d)" % i, t.contains_transient(i), i < n)
+    chk("(peek %r)" % items, v.peek(), items[-1] if items else None); chk("(count %r)" % items, len(v), n); chk("(empty %r)" % items, list(v.empty()), [])
+    if n:
+        chk("(pop %r)" % items, list(v.pop()), items[:-1]); chk("(persistent! (pop! (transient %r)))" % items, list(v.to_transient().pop_transient().to_persistent()), items[:-1])
+    chk("source vector %r afterwards" % items, list(v), items)
+    chk("(meta (with-meta v x))", v.with_meta(META2).meta, META2); chk("(meta v) after with-meta", v.meta, META); chk("(= v (with-meta v x))", v.with_meta(META2) == v, True)
+    chk("(hash (with-meta v x))", hash(v.with_meta(META2)) == hash(v), True)
+    # ---- lists and queues
+    l, q = llist.list(items, meta=META), lqueue.queue(items, meta=META)
+    for xs in ([], [7], [7, 8]):
+        chk("(conj (list %r) %r)" % (items, xs), list(l.cons(*xs)), list(reversed(xs)) + items); chk("(conj (queue %r) %r)" % (items, xs), list(q.cons(*xs)), items + xs)
+    chk("(first (list %r))" % items, l.first, items[0] if items else None); chk("(peek (list %r))" % items, l.peek(), items[0] if items else None)
+    chk("(rest (list %r))" % items, list(l.rest), items[1:]); chk("(peek (queue %r))" % items, q.peek(), items[0] if items else None)
+    chk("(count (list %r))" % items, len(l), n); chk("(count (queue %r))" % items, len(q), n); chk("(empty list)", list(l.empty()), []); chk("(empty queue)", list(q.empty()), [])
+    if n:
+        chk("(pop (list %r))" % items, list(l.pop()), items[1:]); chk("(pop (queue %r))" % items, list(q.pop()), items[1:])
+    chk("source list %r afterwards" % items, list(l), items); chk("source queue %r afterwards" % items, list(q), items)
+    for nm, c in (("list", l), ("queue", q)):
+        chk("(meta (with-meta %s x))" % nm, c.with_meta(META2).meta, META2); chk("(meta %s) after with-meta" % nm, c.meta, META); chk("(= %s (with-meta %s x))" % (nm, nm), c.with_meta(META2) == c, True)
+for line in bad[:12]:
+    print(line)
+print("REPRODUCED" if bad else "not reproduced")
+'''
